@@ -162,6 +162,32 @@ def directed(tuftool, replay):
         st3 = replay('root_check', {'path': three})
         if rc3 == 0 and st3.get('parses') and st3['roles'].get('root', {}).get('keyids') != before3['roles'].get('root', {}).get('keyids') and st3.get('signatures'):
             problems.append({'class': 'stale-signatures', 'sequence': list(log), 'what': f'`add-key` of a key that is already in the key table to the root role changed the root key ids but left {len(st3["signatures"])} signature(s) in the file'})
+        # fourth scenario: a root.json NOT produced by tuftool, whose key table spells a key differently from tuftool's own encoding (PEM with a
+        # trailing newline, as in the simple-rsa fixture: equal as a key, different as text, hence a different key id). Every subcommand that
+        # exits 0 must leave a parseable file whose key table identifiers are correct, and adding that very key again must not corrupt the table.
+        fixture = '/repo/tough/tests/data/simple-rsa/root.json'
+        pem = [k['path'] for k in keys if k['path'].endswith('snakeoil.pem')]
+        if os.path.exists(fixture) and pem:
+            for tag, cmds in (('add-key of the listed key to targets', [('add-key', '@', '-k', pem[0], '-r', 'targets')]),
+                              ('add-key of the listed key to root, then bump-version and sign', [('add-key', '@', '-k', pem[0], '-r', 'root'), ('bump-version', '@'), ('sign', '@', '-k', pem[0], '-i')]),
+                              ('add-key of another key, then of the listed key', [('add-key', '@', '-k', A, '-r', 'snapshot'), ('add-key', '@', '-k', pem[0], '-r', 'snapshot'), ('set-version', '@', '7')]),
+                              ('remove-key and re-add of the listed key', [('remove-key', '@', '#id'), ('add-key', '@', '-k', pem[0], '-r', 'root', '-r', 'snapshot', '-r', 'targets', '-r', 'timestamp'), ('expire', '@', 'in 3 days')])):
+                four = os.path.join(work, 'four.json'); shutil.copy(fixture, four)
+                st0 = replay('root_check', {'path': four})
+                if not (st0.get('parses') and st0.get('keyids_ok')): break
+                for c in cmds:
+                    args = [four if a == '@' else (st0['keys'][0] if a == '#id' else a) for a in c]
+                    rc4 = t(*args)
+                    st4 = replay('root_check', {'path': four})
+                    if rc4 == 0 and not (st4.get('parses') and st4.get('keyids_ok')):
+                        problems.append({'class': 'foreign-encoding-key-table', 'sequence': list(log[-len(cmds) - 1:]), 'what': f'starting from the simple-rsa fixture root (key spelled as PEM with a trailing newline), {tag}: `{c[0]}` exited 0 and left a file that '
+                                         + ('does not parse: ' + str(st4.get('error'))[:200] if not st4.get('parses') else 'lists a key under an identifier that is not the digest of its content')})
+                        break
+                    if rc4 != 0:
+                        st5 = replay('root_check', {'path': four})
+                        if not st5.get('parses'):
+                            problems.append({'class': 'foreign-encoding-key-table', 'sequence': list(log[-len(cmds) - 1:]), 'what': f'{tag}: `{c[0]}` failed and left an unparseable file'}); break
+                if problems: break
         if problems: return problems
         if rc == 0 and not st.get('self_verifies'):
             return [{'class': 'sign-not-self-verifying', 'sequence': log, 'what': f'`sign -k <one of two root keys>` (no --ignore-threshold, no --cross-sign) exited 0 although the root needs 2 root signatures and carries only one by its own keys '
